@@ -166,7 +166,8 @@ func (w *Writer) zeroStaleTail() error {
 }
 
 func (w *Writer) recoverTailState() error {
-	// We need to track the last two commit frames
+	// We need to track every commit frame: recovery walks back from the last
+	// one to the most recent one whose CRC matches.
 	type commitInfo struct {
 		fh         frameHeader
 		offset     int64
@@ -176,7 +177,7 @@ func (w *Writer) recoverTailState() error {
 		// frame, i.e. if this commit sealed the segment.
 		indexStart uint64
 	}
-	var prevCommit, finalCommit *commitInfo
+	var commits []commitInfo
 
 	// pendingIndexStart is the index array offset of an index frame we've seen
 	// whose commit frame we've not reached yet.
@@ -199,8 +200,7 @@ func (w *Writer) recoverTailState() error {
 
 		case FrameCommit:
 			// The payload is not the length field in this case!
-			prevCommit = finalCommit
-			finalCommit = &commitInfo{
+			c := commitInfo{
 				fh:         fh,
 				offset:     offset,
 				crcStart:   0,            // First commit includes the file header
@@ -208,9 +208,10 @@ func (w *Writer) recoverTailState() error {
 				indexStart: pendingIndexStart,
 			}
 			pendingIndexStart = 0
-			if prevCommit != nil {
-				finalCommit.crcStart = prevCommit.offset + frameHeaderLen
+			if len(commits) > 0 {
+				c.crcStart = commits[len(commits)-1].offset + frameHeaderLen
 			}
+			commits = append(commits, c)
 		}
 		return true, nil
 	})
@@ -218,80 +219,60 @@ func (w *Writer) recoverTailState() error {
 		return err
 	}
 
-	if finalCommit == nil {
+	if len(commits) == 0 {
 		// There were no commit frames found at all. This segment file is
 		// effectively empty. Init it that way ready for appending. This overwrites
 		// the file header so it doesn't matter if it was valid or not.
 		return w.initEmpty()
 	}
 
-	// Assume that the final commit is good for now and set the writer state
-	w.writer.writeOffset = uint32(finalCommit.offset + frameHeaderLen)
-	w.writer.indexStart = finalCommit.indexStart
-
-	// Just store what we have for now to ensure the defer doesn't panic we'll
-	// probably update this below.
-	w.offsets.Store(offsets)
-
-	// Whichever path we take, fix up the commitIdx before we leave
-	defer func() {
-		ofs := w.getOffsets()
-		if len(ofs) > 0 {
-			// Non atomic is OK because this file is not visible to any other threads
-			// yet.
-			w.commitIdx = w.info.BaseIndex + uint64(len(ofs)) - 1
+	// Find the most recent commit frame whose batch made it to disk completely.
+	// Normally that is the last one, or the one before it when the last batch
+	// was torn by a crash. But frames found behind the last good commit are not
+	// necessarily the remains of a single batch: a batch whose write or fsync
+	// failed is rolled back in memory only, and a shorter batch appended over
+	// its start leaves the rest of it (including its commit frame) behind. So
+	// never trust a commit frame we haven't verified, neither the one we fall
+	// back to nor one that is followed by further entry frames.
+	var good *commitInfo
+	var batchBuf []byte
+	for i := len(commits) - 1; i >= 0; i-- {
+		c := &commits[i]
+		// We know bufLen can't be bigger than the whole segment file because none
+		// of the values were read from the data just from the offsets we moved
+		// through.
+		bufLen := c.offset - c.crcStart
+		if int64(cap(batchBuf)) < bufLen {
+			batchBuf = make([]byte, bufLen)
 		}
-	}()
-
-	if finalCommit.offsetsLen < len(offsets) {
-		// Some entries were found after the last commit. Those must be a partial
-		// write that was uncommitted so can be ignored. But the fact they were
-		// written at all means that the last commit frame must have been completed
-		// and acknowledged so we don't need to verify anything. Just truncate the
-		// extra entries from index and reset the write cursor to continue appending
-		// after the last commit.
-		offsets = offsets[:finalCommit.offsetsLen]
-		w.offsets.Store(offsets)
-
-		// Since at least one commit was found, the header better be valid!
-		return validateFileHeader(*readInfo, w.info)
+		batchBuf = batchBuf[:bufLen]
+		if _, err := w.wf.ReadAt(batchBuf, c.crcStart); err != nil {
+			return fmt.Errorf("failed to read committed batch for CRC validation: %w", err)
+		}
+		if crc32.Checksum(batchBuf, castagnoliTable) == c.fh.crc {
+			good = c
+			break
+		}
 	}
 
-	// Last frame was a commit frame! Let's check that all the data written in
-	// that commit frame made it to disk.
-	// Verify the length first
-	bufLen := finalCommit.offset - finalCommit.crcStart
-	// We know bufLen can't be bigger than the whole segment file because none of
-	// the values above were read from the data just from the offsets we moved
-	// through.
-	batchBuf := make([]byte, bufLen)
-
-	if _, err := w.wf.ReadAt(batchBuf, finalCommit.crcStart); err != nil {
-		return fmt.Errorf("failed to read last committed batch for CRC validation: %w", err)
-	}
-
-	gotCrc := crc32.Checksum(batchBuf, castagnoliTable)
-	if gotCrc == finalCommit.fh.crc {
-		// All is good. We already setup the state we need for writer other than
-		// offsets.
-		w.offsets.Store(offsets)
-
-		// Since at least one commit was found, the header better be valid!
-		return validateFileHeader(*readInfo, w.info)
-	}
-
-	// Last commit was incomplete rewind back to the previous one or start of file
-	if prevCommit == nil {
-		// Init wil re-write the file header so it doesn't matter if it was corrupt
-		// or not!
+	if good == nil {
+		// Not even the first batch was written completely. Init wil re-write the
+		// file header so it doesn't matter if it was corrupt or not!
 		w.writer.indexStart = 0
 		return w.initEmpty()
 	}
 
-	w.writer.writeOffset = uint32(prevCommit.offset + frameHeaderLen)
-	w.writer.indexStart = prevCommit.indexStart
-	offsets = offsets[:prevCommit.offsetsLen]
+	// Continue appending after the last good commit; anything found after it is
+	// a partial or failed write that was never acknowledged.
+	w.writer.writeOffset = uint32(good.offset + frameHeaderLen)
+	w.writer.indexStart = good.indexStart
+	offsets = offsets[:good.offsetsLen]
 	w.offsets.Store(offsets)
+	if len(offsets) > 0 {
+		// Non atomic is OK because this file is not visible to any other threads
+		// yet.
+		w.commitIdx = w.info.BaseIndex + uint64(len(offsets)) - 1
+	}
 
 	// Since at least one commit was found, the header better be valid!
 	return validateFileHeader(*readInfo, w.info)
